@@ -7,8 +7,10 @@
    Which actions get a snapshot (C03_snapshots, programs without runtime registration of reducers
    or middlewares): exactly the write-backs whose chain asked to notify and that no
    before_dispatch hook suppressed, in reduce order, each with the state that action produced.
-   What a snapshot contains is the registry at that moment (C09_registry). *)
-From RS Require Import Base Pipeline PipelineProofs Channel Script World Hist WorldFold WorldNotify WorldSnap.
+   What a snapshot contains (C03_whole_run_subscriber_in_every_snapshot, WorldRegistered.v, every
+   program and schedule): every subscriber whose registration call had returned and for which no
+   unsubscribing call had been invoked when the snapshot was taken. *)
+From RS Require Import Base Pipeline PipelineProofs Channel Script World Hist WorldSids WorldRegistered WorldFold WorldNotify WorldSnap.
 
 Section C03.
 Context {State Action Eff : Type}.
@@ -52,9 +54,19 @@ Theorem C03_snapshots : forall RS0 MS0 progs w pc, length progs <= 100 ->
   get_thread (w_threads w) reducer_tid = Some (TReducer pc) -> ~ in_window pc ->
   snaps (w_hist w) = noted cfg RS0 MS0 (writes (w_hist w)).
 Proof. intros RS0 MS0 progs w pc L SP R G NW. exact (snapshots_are_notifying cfg RS0 MS0 progs w pc L SP R G NW). Qed.
+
+(* "a subscriber registered ... for the whole run": whenever the reducer took a snapshot (history
+   h2 ++ ESnapshot a s snap :: h1, h1 the older part), every identifier sid whose registration call
+   had returned in h1 and for which no unsubscribing call had been invoked in h1 is in snap -
+   with C03_stream it is called for that action, with C03_snapshots for every notifying action *)
+Theorem C03_whole_run_subscriber_in_every_snapshot : forall reducers mws progs w h2 a s snap h1 sid,
+  length progs <= 100 -> reachable cfg reducers mws progs w ->
+  w_hist w = h2 ++ ESnapshot a s snap :: h1 -> reg_live sid h1 = true -> In sid (ids snap).
+Proof. intros. eapply registered_in_snapshot; eauto. Qed.
 End C03_world.
 
 Print Assumptions C03_notify_pure_partial.
 Print Assumptions C03_stream.
 Print Assumptions C03_snapshots.
+Print Assumptions C03_whole_run_subscriber_in_every_snapshot.
 Print Assumptions C03_last_reducer_decides.
